@@ -4,6 +4,8 @@ package scen
 import (
 	"math/rand"
 
+	lptypes "github.com/elys-network/elys/x/leveragelp/types"
+
 	"verifharness/chain"
 	"verifharness/gen"
 	"verifharness/mon"
@@ -22,6 +24,10 @@ type Variant struct {
 	Host  float64
 	Walk  float64
 	Jump  int
+	// SparseSweep: governance makes the leveragelp begin-block sweep sparse (few positions per
+	// block, long epoch) so that interest really accrues lazily between touches of a debt; with the
+	// default (1000 positions every block) every debt is refreshed in every begin-block.
+	SparseSweep bool
 }
 
 func NewVariant(c *run.Ctx) *Variant {
@@ -36,6 +42,7 @@ func NewVariant(c *run.Ctx) *Variant {
 	v.Host = []float64{0.25, 0.1, 0.4}[r.Intn(3)]
 	v.Walk = []float64{0.06, 0.02, 0.12}[r.Intn(3)]
 	v.Jump = []int{60, 30, 0, 100}[r.Intn(4)]
+	v.SparseSweep = c.Job.Index%3 != 0
 	return v
 }
 
@@ -47,6 +54,18 @@ func (v *Variant) World(c *run.Ctx, probes bool, nUsers int) *chain.World {
 
 func (v *Variant) Prologue(w *chain.World) {
 	w.Prologue(chain.PrologueCfg{Scale: v.Scale, Pool3: v.Pool3, W2A: v.W2A, W2B: v.W2B, Fee1: v.Fee1, Fee2: v.Fee2})
+	v.Sweep(w)
+}
+
+// Sweep applies the sparse-sweep governance change of this variant (if any).
+func (v *Variant) Sweep(w *chain.World) {
+	if !v.SparseSweep || w.Dead {
+		return
+	}
+	p := w.App.LeveragelpKeeper.GetParams(w.ReadCtx())
+	p.NumberPerBlock = int64(1 + v.R.Intn(3))
+	p.EpochLength = int64([]int{1, 5, 23}[v.R.Intn(3)])
+	w.GovExec("sparse sweep", &lptypes.MsgUpdateParams{Authority: w.Gov, Params: &p})
 }
 
 func (v *Variant) Gen(w *chain.World, c *run.Ctx, mix gen.Mix) *gen.Gen {
